@@ -22,7 +22,6 @@ MUTANTS = [
  ('c15_wmm_cache_coeffs', 'C15', 'ahrs/utils/wmm.py', "        file_data = pkgutil.get_data(__name__, cof_file).decode()", "        if getattr(self, '_loaded_cof', None) == cof_file and hasattr(self, 'c'):\n            return\n        self._loaded_cof = cof_file\n        file_data = pkgutil.get_data(__name__, cof_file).decode()"),
  ('c19_q2euler_inplace', 'C19', 'ahrs/common/orientation.py', "    q = q / np.linalg.norm(q)\n    Q = np.array([\n        [q[0], -q[1], -q[2], -q[3]],\n        [q[1],  q[0], -q[3],  q[2]],", "    q *= 1.0 / np.linalg.norm(q)\n    Q = np.array([\n        [q[0], -q[1], -q[2], -q[3]],\n        [q[1],  q[0], -q[3],  q[2]],"),
  ('c05_mahony_ki_sign', 'C05', 'ahrs/filters/mahony.py', "            omega_mes = np.cross(a, v_a) + np.cross(m, v_m) # Cost function (eqs. 32c and 48a)\n            bDot = -self.k_I*omega_mes", "            omega_mes = np.cross(a, v_a) + np.cross(m, v_m) # Cost function (eqs. 32c and 48a)\n            bDot = self.k_I*omega_mes"),
- ('c05_aqua_lerp_small_gain', 'C05', 'ahrs/filters/aqua.py', "    if q[0] > t:  # LERP\n", "    if q[0] > t or ratio < 0.05:  # LERP\n"),
  ('c03_mahony_imu_no_renorm', 'C03', 'ahrs/filters/mahony.py', "            Omega = Omega - self.b + self.k_P*omega_mes  # Gyro correction\n        p = np.array([0.0, *Omega])\n        qDot = 0.5*q.product(p)                     # Rate of change of quaternion (eqs. 45 and 48b)\n        q += qDot*dt                                # Update orientation\n        q /= np.linalg.norm(q)                      # Normalize Quaternion (Versor)\n        return q\n\n    def updateMARG", "            Omega = Omega - self.b + self.k_P*omega_mes  # Gyro correction\n        p = np.array([0.0, *Omega])\n        qDot = 0.5*q.product(p)                     # Rate of change of quaternion (eqs. 45 and 48b)\n        q += qDot*dt                                # Update orientation\n        return q\n\n    def updateMARG"),
  ('c12_slerp_nan_weights', 'C12', 'ahrs/common/quaternion.py', "                t_array=np.linspace(0, 1, interval[1]-interval[0]+3)[1:-1]", "                t_array=np.linspace(0, 1, interval[1]-interval[0]+2, endpoint=False)[1:]"),
  ('c08_closed_small_angle_shortcut', 'C08', 'ahrs/filters/angular.py', "            A = np.cos(w*dt/2.0)*np.eye(4) + np.sin(w*dt/2.0)*Omega/w", "            A = np.cos(w*dt/2.0)*np.eye(4) + np.sin(w*dt/2.0)*Omega/w if w*dt > 1e-3 else np.eye(4) + 0.5*dt*Omega"),
